@@ -4,7 +4,9 @@
    which are finite and proved here by computation on every run. *)
 From Coq Require Import List String Ascii Bool Arith ZArith Permutation Sorted.
 From Helm Require Import Common.Assoc Common.SortUniq Text.Split Text.KindSort Text.KindSortProofs
-  Text.SplitProofs Text.Classify Text.ClassifyProofs Text.Uninstall Text.UninstallProofs Text.Batch Text.BatchProofs Gen.KindOrder Gen.Events.
+  Text.SplitProofs Text.Classify Text.ClassifyProofs Text.Uninstall Text.UninstallProofs Text.Batch Text.BatchProofs Gen.KindOrder Gen.Events
+  Common.Strs Text.Lower Text.LowerProofs Text.ClassifyU Text.ClassifyUProofs Text.UninstallU Text.Full Text.FullProofs Text.SpellingProofs
+  Gen.UnicodeLower Gen.C08Render.
 Import ListNotations.
 Local Open Scope string_scope.
 
@@ -400,3 +402,316 @@ Example C08_uninstall_inhabited :
               [mkManifest "manifest-1" "cm" (mkHead "v1" "ConfigMap" (Some ("c", [("helm.sh/resource-policy", " Keep ")])))].
 Proof. vm_compute. reflexivity. Qed.
 Print Assumptions C08_uninstall_inhabited.
+
+(* ====================================================================================
+   Round 4: the whole of renderResources, and strings.ToLower as Go computes it.
+   [lower] is the lower-casing function: every statement below holds for ANY function, in
+   particular for [go_to_lower] (Text/Lower.v, the model of strings.ToLower the correspondence
+   run evaluates) and for [to_lower] (ASCII only), of which the first model is the instance.
+   ==================================================================================== *)
+
+(* the first model is the instance lower := to_lower of the generic one *)
+Theorem C08_first_model_is_instance :
+  forall (head_of : string -> option head) (order : list string) (files : list (string * string)),
+    sort_manifests_g to_lower head_of order files = sort_manifests head_of order files.
+Proof. exact sort_manifests_g_to_lower. Qed.
+Print Assumptions C08_first_model_is_instance.
+
+(* C08_partition for every lower-casing function *)
+Theorem C08_partition_any_lowercasing :
+  forall (lower : string -> string) (head_of : string -> option head) (order : list string) (files : list (string * string)) hs gs,
+    sort_manifests_g lower head_of order files = SortOk hs gs ->
+    let docs := flat_map file_docs (filter (fun f => negb (is_partial (fst f) || is_blank (snd f))) files) in
+    Permutation docs (map gdoc gs ++ map hdoc hs ++ filter (is_dropped_g lower head_of) docs) /\
+    Permutation (map gdoc gs) (filter (is_generic_g lower head_of) docs) /\
+    Permutation (map hdoc hs) (filter (is_hook_g lower head_of) docs) /\
+    (forall pd, In pd docs -> place_of_g lower head_of (snd pd) <> PError).
+Proof. exact sort_manifests_partition_files_g. Qed.
+Print Assumptions C08_partition_any_lowercasing.
+
+Theorem C08_placed_iff_any_lowercasing :
+  forall (lower : string -> string) (head_of : string -> option head) (order : list string) (files : list (string * string)) hs gs,
+    sort_manifests_g lower head_of order files = SortOk hs gs ->
+    forall p d, In (p, d) (flat_map file_docs (filter (fun f => negb (is_partial (fst f) || is_blank (snd f))) files)) ->
+      (In (p, d) (map hdoc hs) <->
+         exists h types, head_of d = Some h /\ hook_ann h = Some types /\ all_known_g lower types = true) /\
+      (In (p, d) (map gdoc gs) <-> exists h, head_of d = Some h /\ hook_ann h = None) /\
+      (~ In (p, d) (map hdoc hs ++ map gdoc gs) <->
+         exists h types, head_of d = Some h /\ hook_ann h = Some types /\ all_known_g lower types = false).
+Proof. exact placed_iff_g. Qed.
+Print Assumptions C08_placed_iff_any_lowercasing.
+
+(* ------------------------------------------------------------------------------------
+   strings.ToLower.  A token names a known event for the real code iff, after TrimSpace, it
+   spells a key of the event table: each byte c of the key written as c, as its ASCII capital,
+   or as the UTF-8 form of a rune that unicode.ToLower maps to c (table lower_into_ascii,
+   regenerated from the toolchain: today U+0130 for i and U+212A for k).
+   ------------------------------------------------------------------------------------ *)
+Theorem C08_known_events_up_to_go_lowercasing :
+  forall tok, known_event_g go_to_lower tok = true <->
+              exists e, In e (map fst hook_events) /\ spells e (trim_space tok) = true.
+Proof. exact known_event_spellings. Qed.
+Print Assumptions C08_known_events_up_to_go_lowercasing.
+
+Theorem C08_go_to_lower_spells :
+  forall e s, lower_name e = true -> (go_to_lower s = e <-> spells e s = true).
+Proof. exact go_to_lower_spells. Qed.
+Print Assumptions C08_go_to_lower_spells.
+
+(* the ASCII fast path and the strings.Map path of strings.ToLower agree; on ASCII text the
+   result is the byte-wise lower-casing of the first model *)
+Theorem C08_go_to_lower_ascii :
+  forall s, all_ascii s = true -> go_to_lower s = to_lower s /\ map_runes unicode_to_lower s 0 = to_lower s.
+Proof. exact (fun s H => conj (go_to_lower_ascii s H) (lower_paths_agree s H)). Qed.
+Print Assumptions C08_go_to_lower_ascii.
+
+(* the only runes outside ASCII that unicode.ToLower maps into ASCII are those of the table *)
+Theorem C08_lower_into_ascii_complete :
+  forall r, (128 <= r)%N -> (unicode_to_lower r < 128)%N -> In (r, unicode_to_lower r) lower_into_ascii.
+Proof. exact lower_into_ascii_complete. Qed.
+Print Assumptions C08_lower_into_ascii_complete.
+
+Theorem C08_unicode_tables :
+  lower_into_ascii = [(304, 105); (8490, 107)]%N /\
+  ascii_fold_extras = [(8490, 75); (383, 83); (8490, 107); (383, 115)]%N /\
+  ranges_sorted case_ranges = true.
+Proof. repeat split; vm_compute; reflexivity. Qed.
+Print Assumptions C08_unicode_tables.
+
+Example C08_lower_examples :
+  go_to_lower ("PRE-" ++ bs [196; 176] ++ "NSTALL") = "pre-install" /\
+  go_to_lower ("post-rollbac" ++ bs [226; 132; 170]) = "post-rollback" /\
+  go_to_lower ("pre-" ++ bs [196; 177] ++ "nstall") <> "pre-install" /\                (* U+0131 dotless i *)
+  go_to_lower ("A" ++ bs [128] ++ "B") = "a" ++ bs [239; 191; 189] ++ "b" /\             (* invalid byte -> U+FFFD *)
+  known_event_g go_to_lower (" Pre-" ++ bs [196; 176] ++ "nstall ") = true /\
+  known_event_g to_lower (" Pre-" ++ bs [196; 176] ++ "nstall ") = false /\
+  kept_g go_to_lower (mkManifest "p" "d" (mkHead "v1" "ConfigMap" (Some ("c", [("helm.sh/resource-policy", bs [226; 132; 170] ++ "EEP")])))) = true.
+Proof. vm_compute. repeat split; try reflexivity; discriminate. Qed.
+Print Assumptions C08_lower_examples.
+
+(* ------------------------------------------------------------------------------------
+   renderResources, whole (Text/Full.v).  No output directory, no post-renderer: every
+   document of the template files that are not NOTES.txt, partials or blank is in exactly one
+   of manifest / hooks / dropped; nothing of a NOTES.txt file or a partial is placed; the buffer
+   is the CRD files (only with includeCrds; each verbatim under its # Source header, in front)
+   followed by one entry per manifest in kind order; without --hide-secret that is the manifest
+   text of the first model (nothing altered).
+   ------------------------------------------------------------------------------------ *)
+Theorem C08_full_partition :
+  forall (head_of : string -> option head) (lower : string -> string) (o : opts) (crds files : list (string * string))
+         hs b notes w,
+    o_output_dir o = "" ->
+    render_full head_of lower o crds None files = FullOk hs b notes w ->
+    let docs := flat_map file_docs
+                  (filter (fun f => negb (is_notes (fst f)) && negb (is_partial (fst f) || is_blank (snd f))) files) in
+    exists gs,
+      Permutation docs (map gdoc gs ++ map hdoc hs ++ filter (is_dropped_g lower head_of) docs) /\
+      Permutation (map gdoc gs) (filter (is_generic_g lower head_of) docs) /\
+      Permutation (map hdoc hs) (filter (is_hook_g lower head_of) docs) /\
+      (forall pd, In pd docs -> place_of_g lower head_of (snd pd) <> PError) /\
+      (forall p d, In (p, d) (map gdoc gs ++ map hdoc hs) -> is_notes p = false /\ is_partial p = false) /\
+      b = concat_str (map crd_entry (if o_include_crds o then crds else []) ++ map (doc_entry (o_hide_secret o)) gs) /\
+      (o_hide_secret o = false ->
+       b = (concat_str (map crd_entry (if o_include_crds o then crds else [])) ++ manifest_text gs)%string).
+Proof. exact full_partition. Qed.
+Print Assumptions C08_full_partition.
+
+(* --hide-secret: the single alteration.  An entry of the buffer is the document under its
+   header, unless the flag is set AND the head says kind "Secret" AND apiVersion "v1" (both
+   compared byte for byte): then it is the header and the marker line.  One entry per
+   manifest either way (C08_full_partition: [map]); hooks are never hidden (they are not in
+   the buffer; C08_contents_unchanged). *)
+Theorem C08_hide_secret_entry :
+  forall (hide : bool) (m : manifest),
+    doc_entry hide m =
+      if hide && (String.eqb (h_kind (m_head m)) "Secret" && String.eqb (h_version (m_head m)) "v1")
+      then "---" ++ nl ++ "# Source: " ++ m_name m ++ nl ++ "# HIDDEN: The Secret output has been suppressed" ++ nl
+      else "---" ++ nl ++ "# Source: " ++ m_name m ++ nl ++ m_content m ++ nl.
+Proof. exact doc_entry_spec. Qed.
+Print Assumptions C08_hide_secret_entry.
+
+Theorem C08_hide_secret_unaltered :
+  forall (hide : bool) (m : manifest),
+    hide = false \/ h_kind (m_head m) <> "Secret" \/ h_version (m_head m) <> "v1" ->
+    doc_entry hide m = source_entry (m_name m) (m_content m).
+Proof. exact doc_entry_unaltered. Qed.
+Print Assumptions C08_hide_secret_unaltered.
+
+(* ... and it never reaches what is applied: Install.RunWithContext / Upgrade.prepareUpgrade
+   return an error when HideSecret is set without a dry run, and a dry run returns before
+   anything is created ([applied], Text/Full.v; statement order tied by C08_render_tables).
+   That a dry run applies nothing afterwards is property C06. *)
+Theorem C08_hidden_never_applied :
+  forall (f : run_flags) (m m' : string),
+    applied f m = Some m' -> rf_hide_secret f = false /\ is_dry_run f = false /\ m' = m.
+Proof. exact applied_not_hidden. Qed.
+Print Assumptions C08_hidden_never_applied.
+
+(* the post-renderer, for ANY function f (f b = None: pr.Run returned an error): it is handed
+   exactly the buffer of the run without a renderer (CRDs and manifests, never the hooks; the
+   empty buffer with an output directory), the release manifest is exactly what it returns, and
+   hooks, notes and written files are those of the run without it *)
+Theorem C08_post_renderer :
+  forall (head_of : string -> option head) (lower : string -> string) (o : opts) (crds : list (string * string))
+         (f : string -> option string) (files : list (string * string)),
+    render_full head_of lower o crds (Some f) files =
+    match render_full head_of lower o crds None files with
+    | FullOk hs b notes w =>
+        match f b with Some b' => FullOk hs b' notes w | None => FullPostErr hs notes w end
+    | r => r
+    end.
+Proof. exact render_full_post. Qed.
+Print Assumptions C08_post_renderer.
+
+Theorem C08_post_renderer_identity :
+  forall (head_of : string -> option head) (lower : string -> string) (o : opts) (crds files : list (string * string)),
+    render_full head_of lower o crds (Some (fun b => Some b)) files = render_full head_of lower o crds None files.
+Proof. exact render_full_identity. Qed.
+Print Assumptions C08_post_renderer_identity.
+
+(* --output-dir: nothing goes to the buffer; the file <dir>/<name> exists iff some item (CRD
+   Filename with includeCrds, template path of a manifest) has that name, and holds the entries
+   of exactly the items of that name, in order (manifests: in the order of the kind-sorted
+   list), each in full: --hide-secret has no effect on files; no other file is written.
+   Hypothesis: CRD files and manifests go to the same directory. *)
+Theorem C08_output_dir :
+  forall (head_of : string -> option head) (lower : string -> string) (o : opts) (crds files : list (string * string))
+         hs b notes w,
+    is_empty (o_output_dir o) = false ->
+    (o_use_release_name o = false \/ (if o_include_crds o then crds else []) = []) ->
+    render_full head_of lower o crds None files = FullOk hs b notes w ->
+    b = "" /\
+    exists gs, sort_manifests_g lower head_of install_order (filter (fun f => negb (is_notes (fst f))) files) = SortOk hs gs /\
+      let items := ((if o_include_crds o then crds else []) ++ map (fun m => (m_name m, m_content m)) gs)%list in
+      (forall n, aget (new_dir o ++ "/" ++ n) w =
+                 if existsb (fun it => String.eqb n (fst it)) items
+                 then Some (concat_str (map (fun it => source_entry (fst it) (snd it))
+                                          (filter (fun it => String.eqb n (fst it)) items)))
+                 else None) /\
+      (forall p, aget p w <> None -> exists n, p = new_dir o ++ "/" ++ n).
+Proof. exact render_full_output_dir. Qed.
+Print Assumptions C08_output_dir.
+
+Theorem C08_output_dir_no_write_error :
+  forall (head_of : string -> option head) (lower : string -> string) (o : opts) (crds : list (string * string)) pr files,
+    (o_use_release_name o = false \/ (if o_include_crds o then crds else []) = []) ->
+    render_full head_of lower o crds pr files <> FullWriteErr.
+Proof. exact render_full_no_write_error. Qed.
+Print Assumptions C08_output_dir_no_write_error.
+
+(* the hypothesis is needed: fileWritten is keyed by name, CRD files go to <dir> and manifests
+   to <dir>/<release>; a CRD file whose Filename is a template's path makes the template's
+   file be opened for appending where it does not exist.  Replayed on the real code (corpus
+   case of c08_full.go: "open .../c08-release/c08chart/templates/app.yaml: no such file") *)
+Example C08_output_dir_write_error_witness :
+  render_full (fun _ => Some (mkHead "v1" "ConfigMap" None)) go_to_lower
+    (mkOpts "c" "rel" "OUT" false true true false)
+    (chart_crds (Chart "c" [("crds/../templates/app.yaml", "kind: CustomResourceDefinition")] []))
+    None [("c/templates/app.yaml", "kind: ConfigMap")] = FullWriteErr.
+Proof. vm_compute. reflexivity. Qed.
+Print Assumptions C08_output_dir_write_error_witness.
+
+(* Info.Notes: the texts of the selected NOTES.txt files (all with subNotes, else the chart's
+   own templates/NOTES.txt), joined with a line feed when the buffer is not empty, in the order
+   (number of slashes, name) - the only sorted arrangement of a map's keys; no NOTES.txt file,
+   no notes *)
+Theorem C08_notes :
+  forall (o : opts) (files : list (string * string)),
+    notes_text o (notes_order files) "" =
+      fold_left (fun b v => ((if is_empty b then b else b ++ nl) ++ v)%string)
+                (map snd (filter (fun f => is_notes (fst f) && (o_sub_notes o || String.eqb (fst f) (main_notes_key o)))
+                            (notes_order files))) "" /\
+    Permutation (notes_order files) files /\
+    StronglySorted (fun a b => notes_leb (fst a) (fst b) = true) (notes_order files) /\
+    (forall l, NoDup (map fst files) -> Permutation l files ->
+               StronglySorted (fun a b => notes_leb (fst a) (fst b) = true) l -> l = notes_order files) /\
+    ((forall f, In f files -> is_notes (fst f) = false) -> notes_text o (notes_order files) "" = "").
+Proof.
+  exact (fun o files =>
+           conj (notes_text_spec o (notes_order files) "")
+             (conj (notes_order_perm files)
+                (conj (notes_order_sorted files)
+                   (conj (notes_order_unique files) (notes_only_from_notes_files o files))))).
+Qed.
+Print Assumptions C08_notes.
+
+(* uninstall with strings.ToLower in filterManifestsToKeep *)
+Theorem C08_uninstall_order_any_lowercasing :
+  forall (lower : string -> string) (head_of : string -> option head) (order : list string) (manifest : string) del keep,
+    delete_order_g lower head_of order manifest = DeleteOrder del keep ->
+    exists gs0,
+      map gdoc gs0 = filter (is_generic_g lower head_of) (all_docs (split_map manifest)) /\
+      Permutation (del ++ keep) gs0 /\
+      (forall m, In m del -> kept_g lower m = false) /\ (forall m, In m keep -> kept_g lower m = true) /\
+      StronglySorted (fun a b => rank_leb (kind_rank order (h_kind (m_head a))) (kind_rank order (h_kind (m_head b))) = true) del /\
+      del = filter (fun m => negb (kept_g lower m)) (sort_by_kind (fun m => h_kind (m_head m)) order gs0) /\
+      keep = filter (kept_g lower) (sort_by_kind (fun m => h_kind (m_head m)) order gs0).
+Proof. exact delete_order_spec_g. Qed.
+Print Assumptions C08_uninstall_order_any_lowercasing.
+
+(* ---- what the model of renderResources was transcribed from is still what /repo says -------- *)
+Theorem C08_render_tables :
+  render_formats = [source_entry "%s" "%s"; source_entry "%s" "%s"; hidden_entry "%s"; source_entry "%s" "%s"] /\
+  write_formats = [source_entry "%s" "%s"] /\
+  write_path = ["strings.Join([]string{outputDir, name}, string(filepath.Separator))"] /\
+  create_or_open = ["if appendData { return os.OpenFile(filename, os.O_APPEND|os.O_WRONLY, 0600) }"; "return os.Create(filename)"] /\
+  hide_secret_condition = "hideSecret && m.Head.Kind == ""Secret"" && m.Head.Version == ""v1""" /\
+  notes_file_condition = "strings.HasSuffix(k, notesFileSuffix)" /\
+  notes_selected_condition = "subNotes || (k == path.Join(ch.Name(), ""templates"", notesFileSuffix))" /\
+  notes_less = ["ci, cj := strings.Count(notesKeys[i], ""/""), strings.Count(notesKeys[j], ""/"")";
+                "if ci != cj { return ci < cj }"; "return notesKeys[i] < notesKeys[j]"] /\
+  include_crds_condition = "includeCrds" /\
+  output_dir_conditions = ["outputDir == """""; "outputDir == """""] /\
+  post_render_calls = ["pr.Run(b)"] /\
+  crd_file_condition = "strings.HasPrefix(f.Name, ""crds/"") && hasManifestExtension(f.Name)" /\
+  crd_filename = "filepath.Join(ch.ChartFullPath(), f.Name)" /\
+  manifest_extension_test = "strings.EqualFold(ext, "".yaml"") || strings.EqualFold(ext, "".yml"") || strings.EqualFold(ext, "".json"")".
+Proof. repeat split; vm_compute; reflexivity. Qed.
+Print Assumptions C08_render_tables.
+
+(* the guard and the dry-run return that [applied] transcribes: order of the top-level
+   statements, the isDryRun conditions, and what install / upgrade pass to renderResources
+   (upgrade: no output directory, no CRDs) *)
+Theorem C08_hide_secret_guard_tables :
+  install_skeleton = ["hide-guard"; "render"; "dry-run-return"; "perform"] /\
+  upgrade_skeleton = ["hide-guard"; "render"] /\
+  install_is_dry_run = "i.DryRun || i.DryRunOption == ""client"" || i.DryRunOption == ""server"" || i.DryRunOption == ""true""" /\
+  upgrade_is_dry_run = "u.DryRun || u.DryRunOption == ""client"" || u.DryRunOption == ""server"" || u.DryRunOption == ""true""" /\
+  install_render_args = ["chrt"; "valuesToRender"; "i.ReleaseName"; "i.OutputDir"; "i.SubNotes"; "i.UseReleaseName";
+                         "i.IncludeCRDs"; "i.PostRenderer"; "interactWithRemote"; "i.EnableDNS"; "i.HideSecret"] /\
+  upgrade_render_args = ["chart"; "valuesToRender"; """"""; """"""; "u.SubNotes"; "false"; "false"; "u.PostRenderer";
+                         "interactWithRemote"; "u.EnableDNS"; "u.HideSecret"].
+Proof. repeat split; reflexivity. Qed.
+Print Assumptions C08_hide_secret_guard_tables.
+
+(* ---- non-vacuity: a chart with CRDs in the root and a subchart, a hidden v1 Secret, a Secret
+   of another version, a hook Secret, notes at two depths ---------------------------------------- *)
+Definition ex_full_heads (d : string) : option head :=
+  if String.eqb d "sec" then Some (mkHead "v1" "Secret" (Some ("s", [])))
+  else if String.eqb d "sec2" then Some (mkHead "v2" "Secret" (Some ("s2", [])))
+  else if String.eqb d "hooksec" then Some (mkHead "v1" "Secret" (Some ("hs", [("helm.sh/hook", "pre-install")])))
+  else if String.eqb d "cm" then Some (mkHead "v1" "ConfigMap" (Some ("c", [])))
+  else None.
+Definition ex_full_files : list (string * string) :=
+  [ ("c/templates/a.yaml", "cm" ++ nl ++ "---" ++ nl ++ "sec" ++ nl ++ "---" ++ nl ++ "sec2" ++ nl ++ "---" ++ nl ++ "hooksec");
+    ("c/templates/NOTES.txt", "main notes");
+    ("c/charts/sub/templates/NOTES.txt", "sub notes");
+    ("c/templates/x/NOTES.txt", "nested") ].
+Definition ex_full_chart : chart :=
+  Chart "c" [("crds/w.yaml", "crd1"); ("crds/readme.txt", "no"); ("crds/x.J" ++ bs [197; 191] ++ "ON", "crd2")]
+            [Chart "sub" [("crds/s.YML", "crd3"); ("files/crds/t.yaml", "no")] []].
+
+Example C08_full_inhabited :
+  chart_crds ex_full_chart = [("c/crds/w.yaml", "crd1"); ("c/crds/x.J" ++ bs [197; 191] ++ "ON", "crd2"); ("c/charts/sub/crds/s.YML", "crd3")] /\
+  render_full ex_full_heads go_to_lower (mkOpts "c" "rel" "" true false true true) (chart_crds ex_full_chart) None ex_full_files =
+    FullOk [mkHook "hs" "Secret" "c/templates/a.yaml" "hooksec" ["pre-install"] 0%Z [] []]
+           (source_entry "c/crds/w.yaml" "crd1" ++ source_entry ("c/crds/x.J" ++ bs [197; 191] ++ "ON") "crd2" ++
+            source_entry "c/charts/sub/crds/s.YML" "crd3" ++
+            hidden_entry "c/templates/a.yaml" ++ source_entry "c/templates/a.yaml" "sec2" ++ source_entry "c/templates/a.yaml" "cm")
+           ("main notes" ++ nl ++ "nested" ++ nl ++ "sub notes") [] /\
+  render_full ex_full_heads go_to_lower (mkOpts "c" "rel" "OUT" false true false true) (chart_crds ex_full_chart) None ex_full_files =
+    FullOk [mkHook "hs" "Secret" "c/templates/a.yaml" "hooksec" ["pre-install"] 0%Z [] []] "" "main notes"
+           [("OUT/rel/c/templates/a.yaml",
+             source_entry "c/templates/a.yaml" "sec" ++ source_entry "c/templates/a.yaml" "sec2" ++ source_entry "c/templates/a.yaml" "cm")].
+Proof. vm_compute. repeat split; reflexivity. Qed.
+Print Assumptions C08_full_inhabited.
